@@ -1042,7 +1042,9 @@ public:
   {
     auto max_ptr = (typename T_Sbx::T_PointerType)(get_total_memory() - 1);
     auto idx = app_ptr_map.get_app_pointer_idx((void*)ptr, max_ptr);
-    auto idx_as_ptr = this->template impl_get_unsandboxed_pointer<T>(idx);
+    // the backend hook takes the pointer type (it may treat pointers to
+    // functions differently): the app pointer is a T*, an object pointer
+    auto idx_as_ptr = this->template impl_get_unsandboxed_pointer<T*>(idx);
     // Right now we simply assume that any integer can be converted to a valid
     // pointer in the sandbox This may not be true for some sandboxing mechanism
     // plugins in the future In this case, we will have to come up with
